@@ -28,6 +28,7 @@ Case kinds (each replayable through execute):
          block/thick/thin/name_field/color choices) and convert.to_bed12 vs the field model in gvmon/models/c18.py
 """
 import os
+import shutil
 import random
 
 from gvmon.gen import c18 as G
@@ -47,7 +48,7 @@ RULE = ("seq: references of 2-4 sequences of 1-3000 bases over ACGTN + IUPAC amb
         "of two or three families} x thick {equal, subset, disjoint, the containing/contained name, overlapping} each as "
         "str or list; seqtwin: 2-4 records of 1-400 bases, twin = reordered / 1-3 bases changed / 1-5 bases moved "
         "between records at equal file size, 3-7 calls alternating between the two paths")
-REQUIRED = ["len(feature) checked", "sequence() by path compared", "sequence() by pyfaidx.Fasta object compared",
+REQUIRED = ["len(feature) checked", "sequence() by other spellings of the path compared", "sequence() by path compared", "sequence() by pyfaidx.Fasta object compared",
             "sequence() minus strand reverse-complemented", "sequence() minus strand with use_strand=False",
             "sequence(): features from a database", "bed12 calls by id", "bed12 calls by Feature", "bed12 lines compared",
             "bed12 thickStart/thickEnd judged", "bed12 ValueError expected and raised", "bed12 single-block exports",
@@ -122,6 +123,21 @@ def execute(ctx, case):
 # ---------------------------------------------------------------------------------
 # seq
 # ---------------------------------------------------------------------------------
+def other_spellings(path, seqs):
+    root = path + ".d"
+    shutil.rmtree(root, ignore_errors=True)
+    os.makedirs(os.path.join(root, "store", "deep"))
+    os.makedirs(os.path.join(root, "proj"))
+    shutil.copyfile(path, os.path.join(root, "store", "ref.fa"))
+    # decoy: same record names, other bases (each record reversed)
+    with open(os.path.join(root, "proj", "ref.fa"), "w", newline="") as fh:
+        fh.write(M.fasta_text([(name, desc, seq[::-1], width) for name, desc, seq, width in seqs]))
+    os.symlink(os.path.join(root, "store", "deep"), os.path.join(root, "proj", "link"))
+    os.symlink(os.path.join(root, "store", "ref.fa"), os.path.join(root, "proj", "reference_link.fa"))
+    return {"root": root, "dotdot": os.path.join(root, "proj", "link", "..", "ref.fa"),
+            "filelink": os.path.join(root, "proj", "reference_link.fa")}
+
+
 def run_seq(ctx, case):
     import gffutils
     import pyfaidx
@@ -161,6 +177,22 @@ def run_seq(ctx, case):
                     "Fasta": f.sequence(fa),
                     "Fasta,use_strand=False": f.sequence(fa, use_strand=False),
                 }
+                if i == 0:
+                    # other spellings of a path to the same bases: relative to the working directory, through a symlink to
+                    # the file, and through a symlinked directory followed by '..' (the operating system resolves the
+                    # link first; a decoy with other bases sits where a lexical collapse of '..' would point)
+                    spell = other_spellings(path, seqs)
+                    cwd = os.getcwd()
+                    try:
+                        os.chdir(os.path.join(spell["root"], "store"))
+                        got["path relative to cwd"] = f.sequence("ref.fa")
+                        os.chdir(cwd)
+                        got["path to a symlink"] = f.sequence(spell["filelink"])
+                        got["path through symlinked dir and .."] = f.sequence(spell["dotdot"])
+                        ctx.mon("sequence() by other spellings of the path compared", 3)
+                    finally:
+                        os.chdir(cwd)
+                        shutil.rmtree(spell["root"], ignore_errors=True)
             except Exception as ex:
                 ctx.violation(case, {"why": "len()/sequence() raised %s" % type(ex).__name__, "exception": repr(ex), "slice": sl})
                 return
